@@ -454,6 +454,8 @@ def rank_hypothesis(ctx, reqs, impl, arr, exact_ok):
         if len(set(arr[i].tolist())) < arr.shape[1]:
             reqs.append(f"rankof {enc_vec(arr[i])} {enc_ivec(rk[i])}")
             impl.append("1")
+            reqs.append(f"rankof_model {enc_vec(arr[i])}")      # the model's own stable ranks
+            impl.append("1")
             ctx.count("gen:rank-array-of-tied-row-is-RankOf")
 
 
